@@ -108,7 +108,7 @@ def label_of(t):
         return label_of(t[1])
     if t[0] == "concat":
         return any(label_of(p) for p in t[1:])
-    if t[0] in ("scatter", "slice", "sa"):
+    if t[0] in ("scatter", "slice", "sa", "sel"):
         return label_of(t[1])
     if t[0] in ("Fmap", "LFobj", "umap"):
         return True
@@ -233,6 +233,12 @@ def seq_elem(I, st, v, ip=None, label=False):
         return thaw(t[1])
     if t[0] == "zip":
         return VTup([seq_elem(I, st, VSeq(t[1])), seq_elem(I, st, VSeq(t[2]))])
+    if t[0] == "lfilter":
+        # an element that passed the filter: the arbitrary element of the underlying list, renamed to the
+        # sub-sequences selected by the mask, and satisfying the filter condition
+        term_facts(st, t)
+        base = seq_elem(I, st, VSeq(t[1]), None)
+        return rename_selected(st, base, t[2])
     if t[0] == "enum":
         ix = Poly.atom(("enumidx", t[1]))
         st.add_ge(t_len(t[1]) - ix - 1)
@@ -710,6 +716,64 @@ def filter_map_term(I, st, fr, e, seq, f):
     return t
 
 
+def _rename_poly(st, p, M):
+    mapping = {}
+    for at in p.atoms():
+        if isinstance(at, tuple) and at and at[0] == "elem":
+            new = ("elem", ("sel", at[1], M))
+            mapping[at] = Poly.atom(new)
+            for b in ubs(st, at[1]):
+                st.add_ge(b - Poly.atom(new) - 1)
+    return p.subst(mapping) if mapping else p
+
+
+def rename_selected(st, v, M):
+    """v is built from the arbitrary elements ('elem', X) of some sequences X; the same value over the elements of
+    the sub-sequences ('sel', X, M) selected by mask M."""
+    if isinstance(v, VNat):
+        return VNat(_rename_poly(st, v.p, M))
+    if isinstance(v, VUser) and isinstance(v.key, tuple) and v.key and v.key[0] == "elem":
+        return VUser(("elem", ("sel", v.key[1], M)))
+    if isinstance(v, VTup):
+        return VTup([rename_selected(st, x, M) for x in v.items])
+    if isinstance(v, VRec):
+        return VRec(v.ty, {k: rename_selected(st, x, M) for k, x in v.f.items()})
+    if isinstance(v, VSeq):
+        raise NotImplementedError("filter over a list of lists")
+    return v
+
+
+def h_filter(I, st, fr, e, c, a):
+    """iter.filter(pred): the sub-list at the positions where pred holds.  The mask term records the list and the
+    predicate as a formula over the list's arbitrary element."""
+    seq = as_list(I, st, fr, e, a[0])
+    if seq.t == EMPTY:
+        return [(st, seq, None)]
+    s = st.copy()
+    elem = seq_elem(I, s, seq, None)
+    outs = I.apply_value(a[1], [elem], s, fr, e)
+    normal = [(s2, v) for (s2, v, cc) in outs if cc is None]
+    if len(outs) == 1 and len(normal) == 1 and isinstance(normal[0][1], VBool):
+        cond = normal[0][1].f
+    else:
+        cond = ("unk", ("filter-pred", fkey_of(a[1])))
+    M = ("mask", seq.t, cond)
+    t = ("lfilter", seq.t, M)
+    term_facts(st, t)
+    return [(st, VSeq(t), None)]
+
+
+def h_unzip(I, st, fr, e, c, a):
+    seq = as_list(I, st, fr, e, a[0])
+    if seq.t == EMPTY:
+        return [(st, VTup([VSeq(EMPTY), VSeq(EMPTY)]), None)]
+    elem = seq_elem(I, st, seq, None)
+    elem = deref(I, st, elem)
+    if not isinstance(elem, VTup) or len(elem.items) != 2:
+        raise NotImplementedError("unzip over non-pairs")
+    return [(st, VTup([VSeq(lift_map(I, st, seq.t, x)) for x in elem.items]), None)]
+
+
 def h_flat_map(I, st, fr, e, c, a):
     seq = as_list(I, st, fr, e, a[0])
     f = a[1]
@@ -831,6 +895,8 @@ TABLE = {
     "std::iter::Iterator::zip": h_zip,
     "std::iter::Iterator::enumerate": h_enumerate,
     "std::iter::Iterator::filter_map": h_filter_map,
+    "std::iter::Iterator::filter": h_filter,
+    "std::iter::Iterator::unzip": h_unzip,
     "std::iter::Iterator::flat_map": h_flat_map,
     "std::iter::Iterator::for_each": h_for_each,
     "std::iter::Iterator::sum": h_sum,
